@@ -23,6 +23,7 @@ type Gen struct {
 	// FuncP is the probability (in 1/16) that a top-level path gets trailing functions.
 	FuncP  int
 	budget int
+	long   int // containers of the current document still to be padded beyond the small sizes
 }
 
 func New(r *rand.Rand) *Gen {
